@@ -4,7 +4,7 @@
 cd /verif
 src=$1; off=$2; wave=$3; shift 3
 for id in "$@"; do
-  for k in 1 2 3; do
+  for k in ${KS:-1 2 3}; do
     s=$src/$id/$k
     [ -f $s/patch.diff ] || { echo "$id/$k missing"; continue; }
     d=seeded/$id/$((k+off)); rm -rf $d; mkdir -p $d; cp -r $s/. $d/
